@@ -131,11 +131,61 @@ def _work2(pid, tier, unit):
         return ("error", unit, traceback.format_exc())
 
 
+def _child(conn, fn, arg):
+    try:
+        conn.send(fn(arg))
+    finally:
+        conn.close()
+
+
+def unit_limit(tier):
+    """Wall-clock limit for one unit (the largest unit of any check needs about a minute on the unchanged tree): code
+    under test that does not come back -- an endless loop, `1.5 in range(0, 2**62)` -- must end the check, not hang it."""
+    return float(os.environ.get("VERIF_UNIT_TIMEOUT", 900 if tier == "quick" else 3600))
+
+
+def _run_pool(fn, args, jobs, limit):
+    """Every argument in a fresh forked process of its own (no state can leak from one unit into another, so a unit
+    is a deterministic, replayable execution even if the code under test keeps hidden module- or class-level state),
+    at most ``jobs`` at a time, results in argument order.  A process that dies or exceeds ``limit`` seconds yields
+    ("error", arg, why) instead of hanging the run."""
+    from multiprocessing.connection import wait
+    ctx = multiprocessing.get_context("fork")
+    results = [None] * len(args)
+    pending = list(range(len(args)))
+    running = {}
+    while pending or running:
+        while pending and len(running) < jobs:
+            i = pending.pop(0)
+            rd, wr = ctx.Pipe(duplex=False)
+            p = ctx.Process(target=_child, args=(wr, fn, args[i]))
+            p.start()
+            wr.close()
+            running[rd] = (p, i, time.time())
+        for rd in wait(list(running), timeout=1.0):
+            p, i, _ = running.pop(rd)
+            try:
+                results[i] = rd.recv()
+            except (EOFError, OSError):
+                p.join()
+                results[i] = ("error", args[i], "the worker process ended without a result (exit code %r)" % (p.exitcode,))
+            rd.close()
+            p.join()
+        now = time.time()
+        for rd, (p, i, started) in list(running.items()):
+            if now - started > limit:
+                p.kill()
+                p.join()
+                running.pop(rd)
+                rd.close()
+                results[i] = ("error", args[i], "the unit did not finish within %d s (VERIF_UNIT_TIMEOUT): the code under test "
+                              "does not come back on some case of this unit" % limit)
+    return results
+
+
 def _fresh(arg):
     """Run one unit in a fresh forked process."""
-    ctx = multiprocessing.get_context("fork")
-    with ctx.Pool(1, maxtasksperchild=1) as pool:
-        return pool.apply(_work, (arg,))
+    return _run_pool(_work, [arg], 1, unit_limit(arg[1]))[0]
 
 
 def _replay_work(arg):
@@ -149,9 +199,10 @@ def _replay_work(arg):
 
 
 def _fresh_replay(pid, case):
-    ctx = multiprocessing.get_context("fork")
-    with ctx.Pool(1, maxtasksperchild=1) as pool:
-        return pool.apply(_replay_work, ((pid, case),))
+    out = _run_pool(_replay_work, [(pid, case)], 1, unit_limit("quick"))[0]
+    if isinstance(out, tuple) and out and out[0] == "error":
+        return out[2]
+    return out
 
 
 def _short(x, n=600):
@@ -181,16 +232,7 @@ def run_property(pid, tier, jobs, seed, quiet=False):
     rnd = random.Random(seed)
     rnd.shuffle(order)
     args = [(pid, tier, units[i]) for i in order]
-    if jobs > 1 and len(units) > 1:
-        ctx = multiprocessing.get_context("fork")
-        # one fresh forked process per unit: no state can leak from one unit into another, so a
-        # unit is a deterministic, replayable execution even if the code under test keeps hidden
-        # module- or class-level state
-        with ctx.Pool(min(jobs, len(units)), maxtasksperchild=1) as pool:
-            it = pool.imap_unordered(_work, args, chunksize=1)
-            outs = list(it)
-    else:
-        outs = [_fresh(a) for a in args]
+    outs = _run_pool(_work, args, max(1, min(jobs, len(units))), unit_limit(tier))
     for out in outs:
         if out[0] == "error":
             errors.append(out)
